@@ -421,12 +421,12 @@ func (dec *Decoder) decodeUintptr(t reflect.Type, tag byte, p *uintptr) {
 	case TagDouble:
 		*p = uintptr(dec.ReadFloat64())
 	case TagUTF8Char:
-		*p = uintptr(dec.stringToUint64(dec.readUnsafeString(1), 64))
+		*p = uintptr(dec.stringToUint64(dec.readUnsafeString(1), 0))
 	case TagString:
 		if dec.IsSimple() {
-			*p = uintptr(dec.stringToUint64(dec.ReadUnsafeString(), 64))
+			*p = uintptr(dec.stringToUint64(dec.ReadUnsafeString(), 0))
 		} else {
-			*p = uintptr(dec.stringToUint64(dec.ReadString(), 64))
+			*p = uintptr(dec.stringToUint64(dec.ReadString(), 0))
 		}
 	default:
 		dec.defaultDecode(t, p, tag)
